@@ -29,6 +29,9 @@ CLAIMED = {
  'C15': dict(design='4/C15', technique='TLA+ declarative grammar (JaqParse: precedence/associativity table as a minimal-parenthesis renderer) enumerated by TLC over operator pairs/triples and operand constructs; token sequences with trivia variants parsed by the real parser and compared structurally; shorthands validated as traces against the semantics of their expansions',
    text='For every ordered pair and triple of operators in every grouping and every prefix/postfix/binder construct in operand position, TLC renders the tree with minimal, redundant and full parentheses from the documented table; the real parser must return exactly the tree for each rendering under six trivia variants (whitespace, newlines, comments, backslash continuation, CRLF). Documented shorthands are run on the real code and TLC checks the outputs against the semantics of their expansions; ill-formed texts must be rejected.',
    note='the renderer is the specification of the table (TLC checks it is balanced and minimal); the list of ill-formed texts is hand-written; harness normalisation of sugar (missing else, elif, {a}, {$x}, f?) is trusted'),
+ 'C18': dict(design='4/C18', technique='TLA+ state machine JaqInPlace (one action per file-system call, Kill and Fail actions) model-checked exhaustively by TLC; strace logs of the real binary under every kill point and injected call failure validated action-by-action by TLC (Trace_InPlace), final file system compared with the specified state',
+   text='Design: every interleaving of the replace protocol with a crash or a failing call at every step, for 1-3 files and all success/failure patterns, satisfies atomicity, only-after-success, ordering, clean termination and the permission window. Code: ~480 (quick) traced runs of the real binary - each scenario x SIGKILL before every n-th call of every file-system call type x error returns of open/write/stat/rename/chmod - are accepted by the specification event by event, and the bytes, modes and left-over files found afterwards equal the specified file system.',
+   note='strace is the observation boundary (complete for file-system effects short of io_uring); kill = SIGKILL at syscall entry; no power-failure/fsync model'),
 }
 
 checks = []
